@@ -8,6 +8,7 @@
 package main
 
 import (
+	"encoding/json"
 	"fmt"
 	"os"
 	"runtime"
@@ -32,6 +33,17 @@ func main() {
 	rep.Rule = "three streams per entry point: structured (valid outer layer: valid checksum / valid framing / valid JSON, degenerate inner content), mutation of valid samples, random bytes, plus fixed edge cases and size-doubling probes; " +
 		"a case is non-trivial when it is structured by construction or got past the outer validation layer (accepted, or rejected by an inner check); distinct by (entry point, input)"
 	cases = vh.NewCases(cfg, "Run.Run_C08", 400)
+	if cfg.Replay != "" {
+		// replay: every generator is a deterministic function of (seed, tier, search), which bin/check
+		// restores from the replay file; re-running the streams re-evaluates the recorded input (and
+		// everything else) on the current code.  A violation found by the search pass needs that pass.
+		var rp struct {
+			FoundBy string `json:"found_by"`
+		}
+		if b, err := os.ReadFile(cfg.Replay); err == nil && json.Unmarshal(b, &rp) == nil && rp.FoundBy == "search" {
+			cfg.Search, cfg.Tier = true, "thorough"
+		}
+	}
 	if cfg.Search {
 		// search pass (run when an obligation / the correspondence broke or the anchored sources changed):
 		// the thorough generators on a second, independent random stream; monitors only
